@@ -93,6 +93,9 @@ type Spec struct {
 	Bounds       map[string]string `json:"bounds"`
 	PanicIsOK    bool              `json:"panic_is_ok"` // uncaught panics are not violations
 	Params       map[string]int    `json:"-"`
+	DepthIsViolation bool          `json:"depth_is_violation"` // exceeding maxdepth = unbounded recursion = violation
+	ForceLower   bool              `json:"force_lower"`
+	NoLower      bool              `json:"no_lower"` // keep Int theory instead of lowering bounded integers to bit-vectors
 	ForkIndex    bool              `json:"fork_index"` // concretise symbolic indices by forking (keeps x*TABLE[i] linear)
 }
 
@@ -141,6 +144,7 @@ type Machine struct {
 	Spec    *Spec
 	primary *Solver
 	extra   []*Solver // portfolio for final queries
+	extraLow []bool   // whether the back end gets the Int-lowered (pure bit-vector) form
 	epoch   int
 	journal []jent
 
@@ -172,6 +176,10 @@ type Machine struct {
 
 	seenFn         map[*ssa.Function]bool
 	apiFns         map[*ssa.Function]bool
+	lw             *Lowerer
+	lowerFail      int
+	addrSeq        uint64
+	addrs          map[*Cell]uint64
 	deferOwner     []*frame
 	initStores     map[*ssa.Package]map[*ssa.Global]bool
 	initNotes      []string
@@ -274,10 +282,6 @@ func NewMachine(sh *Shared, id int) (*Machine, error) {
 	if err != nil {
 		return nil, err
 	}
-	if os.Getenv("GOSMT_LOG") != "" && id == 0 {
-		f, _ := os.Create(os.Getenv("GOSMT_LOG"))
-		m.primary.Log = f
-	}
 	backs := []Backend{}
 	switch sh.Spec.Backend {
 	case "bv-as-int":
@@ -286,9 +290,11 @@ func NewMachine(sh *Shared, id int) (*Machine, error) {
 		if err != nil {
 			return nil, err
 		}
-		backs = append(backs, BackendCvc5Int(to), BackendZ3(to))
+		backs = append(backs, BackendCvc5Int(to), BackendZ3(to), BackendZ3New(to))
+		m.extraLow = []bool{sh.Spec.ForceLower, true, true}
 	default:
 		backs = append(backs, BackendZ3(to), BackendCvc5Int(to), BackendZ3New(to))
+		m.extraLow = []bool{!sh.Spec.NoLower, false, !sh.Spec.NoLower}
 	}
 	for _, b := range backs {
 		s, err := StartSolver(b)
@@ -297,6 +303,11 @@ func NewMachine(sh *Shared, id int) (*Machine, error) {
 		}
 		m.extra = append(m.extra, s)
 	}
+	if os.Getenv("GOSMT_LOG") != "" && id == 0 {
+		f, _ := os.Create(os.Getenv("GOSMT_LOG"))
+		m.primary.Log = f
+	}
+	m.lw = NewLowerer(m.TT)
 	m.stubs = sh.Spec.Stubs
 	m.intrinsic = map[string]intrinsicFn{}
 	registerIntrinsics(m)
@@ -339,6 +350,8 @@ func (m *Machine) runPath(entry *ssa.Function, prefix Prefix) {
 	m.frames = m.frames[:0]
 	m.hashApps = map[string][]hashApp{}
 	m.hashers = nil
+	m.addrs = nil
+	m.addrSeq = 0
 	m.deferOwner = m.deferOwner[:0]
 	m.pathNotes = nil
 	m.ghost = map[string]Value{}
@@ -357,6 +370,11 @@ func (m *Machine) runPath(entry *ssa.Function, prefix Prefix) {
 				switch x := r.(type) {
 				case *pathEnd:
 					end = x
+					if x.kind == endDepth && m.Spec.DepthIsViolation {
+						m.frames = m.frames[:0]
+						m.depth = 0
+						m.reportViolation("panic: unbounded recursion (call depth exceeds maxdepth)", nil)
+					}
 				case *goPanic:
 					// uncaught panic in the harness
 					end = &pathEnd{endDone, ""}
@@ -391,7 +409,9 @@ func (m *Machine) runPath(entry *ssa.Function, prefix Prefix) {
 	case endUnwind:
 		sh.Incon["unwind: "+end.msg]++
 	case endDepth:
-		sh.Incon["depth: "+end.msg]++
+		if !sh.Spec.DepthIsViolation {
+			sh.Incon["depth: "+end.msg]++
+		}
 	case endFuel:
 		sh.Incon["fuel: "+end.msg]++
 	}
@@ -488,7 +508,7 @@ func (m *Machine) syncSolver() {
 		if e.dec {
 			m.primary.Push()
 		}
-		m.primary.Assert(m.TT, e.t)
+		m.primary.Assert(m.TT, m.L(e.t))
 		m.spc = append(m.spc, e)
 	}
 }
@@ -504,7 +524,7 @@ func (m *Machine) addPC(c *Term, dec bool) {
 func (m *Machine) checkPrimary(c *Term) Result {
 	m.syncSolver()
 	m.primary.Push()
-	m.primary.Assert(m.TT, c)
+	m.primary.Assert(m.TT, m.L(c))
 	r := m.primary.Check()
 	m.primary.PopTo(m.primary.Level - 1)
 	m.Sh.mu.Lock()
@@ -521,7 +541,10 @@ func (m *Machine) checkPrimary(c *Term) Result {
 
 // Fork chooses among mutually exclusive, jointly exhaustive conditions.
 // Returns the index taken on this path. Alternatives are queued.
-func (m *Machine) Fork(conds []*Term) int {
+func (m *Machine) Fork(conds []*Term) int { return m.forkX(conds, false) }
+
+// forkX: allFeasible says the caller knows every non-false alternative is satisfiable (fresh unconstrained symbol).
+func (m *Machine) forkX(conds []*Term, allFeasible bool) int {
 	nonFalse := -1
 	cnt := 0
 	for i, c := range conds {
@@ -567,6 +590,10 @@ func (m *Machine) Fork(conds []*Term) int {
 		if len(feas) == 0 && i == last {
 			feas = append(feas, i) // all others infeasible: this one holds
 			break
+		}
+		if allFeasible {
+			feas = append(feas, i)
+			continue
 		}
 		if r := m.checkPrimary(c); r != Unsat {
 			feas = append(feas, i)
@@ -644,4 +671,27 @@ func (m *Machine) CollectSolverStats() {
 	if m.id == 0 {
 		sh.InitNotes = append(sh.InitNotes, m.initNotes...)
 	}
+}
+
+// L lowers Int arithmetic to bit-vectors when every Int symbol is bounded (see lower.go).
+func (m *Machine) L(t *Term) *Term {
+	if m.noLower() {
+		return t
+	}
+	return m.lowerTerm(t)
+}
+
+func (m *Machine) lowerTerm(t *Term) *Term {
+	r, ok := m.lw.Lower(t)
+	if !ok {
+		m.lowerFail++
+		return t
+	}
+	return r
+}
+
+// noLower: with the integer-lifting back end (cvc5 --solve-bv-as-int) integers stay integers; with the
+// bit-blasting back ends bounded integers are lowered to bit-vectors.
+func (m *Machine) noLower() bool {
+	return m.Spec.NoLower || (m.Spec.Backend == "bv-as-int" && !m.Spec.ForceLower)
 }
